@@ -8,6 +8,8 @@ def run(ctx):
 
 
 def replay(data):
+    if lexeme.is_time_record(data):
+        return lexeme.replay_time("C01", data)
     if lexeme.is_encoder_record(data):
         return lexeme.replay_encoder("C01", data)
     return drv.replay(data)
